@@ -6,7 +6,7 @@
    bounded method meets this contract (local minima, xatol), the cylinder/sphere and multi-layer Rege-Yang potentials, binary64
    rounding.  Property theorems only, each closed by `exact` + Print Assumptions. *)
 From Coq Require Import String Reals Lra QArith ZArith List Bool.
-From PG Require Import Lib.Num Charact.HkLib Gen.HkGen Charact.Hk Charact.HkDispatch Charact.HkMono.
+From PG Require Import Lib.Num Charact.HkLib Gen.HkGen Charact.Hk Charact.HkDispatch Charact.HkMono Charact.HkRyLayers.
 Import ListNotations.
 Open Scope R_scope.
 
@@ -284,6 +284,42 @@ Theorem hk_pipeline_lengths : forall minimise T (ads : hkads RNum) (mat : hkmat 
 Proof. exact hk_slit_pipeline_lengths_l. Qed.
 Print Assumptions hk_pipeline_lengths.
 
+(* ---- Rege-Yang cylinder: the layer rule GENERATED from the closure `potential` of psd_horvath_kawazoe_ry (count, width, population,
+   weighted average) is the PUBLISHED one (ry_published_* are written by hand in Charact/HkRyLayers.v), for all real inputs *)
+Theorem ry_cylinder_layers_match_published : forall d_g d_h L i k ns es,
+  ry_cylinder_layer_count_arg d_g d_h ((d_g + d_h) / 2) L = ry_published_layer_count_arg d_g d_h L /\
+  ry_cylinder_layer_population d_g d_h ((d_g + d_h) / 2) L i = ry_published_population d_g (ry_ring_radius d_g d_h L i) /\
+  ry_cylinder_average k ns es = k * ry_published_average ns es.
+Proof. exact (fun d_g d_h L i k ns es => conj (ry_cylinder_layer_count_published_l d_g d_h _ L)
+               (conj (ry_cylinder_population_published_l d_g d_h L i) (ry_cylinder_average_published_l k ns es))). Qed.
+Print Assumptions ry_cylinder_layers_match_published.
+
+(* the innermost of the M = int(c) + 1 layers is ONE molecule on the pore axis, counted once, exactly when frac(c) < 1/2; otherwise it is
+   a ring of at least two molecules (c = ((2L - d_h)/d_g - 1)/2, the argument of int() in the code) *)
+Theorem ry_cylinder_innermost_layer_weight : forall d_g d_h L, 0 < d_g ->
+  let d_eff := (d_g + d_h) / 2 in
+  let c := ry_cylinder_layer_count_arg d_g d_h d_eff L in
+  let M := IZR (Int_part c) + 1 in
+  (frac_part c < 1 / 2 -> ry_cylinder_layer_population d_g d_h d_eff L M = 1) /\
+  (1 / 2 <= frac_part c -> 2 <= ry_cylinder_layer_population d_g d_h d_eff L M).
+Proof. exact ry_cylinder_innermost_layer_weight_l. Qed.
+Print Assumptions ry_cylinder_innermost_layer_weight.
+
+(* any layer whose ring radius is below d_g/2 has weight 1; two touching molecules (2 r = d_g) have weight 2 *)
+Theorem ry_cylinder_axial_molecule_counts_once : forall d_g d_h L i,
+  (2 * ry_ring_radius d_g d_h L i < d_g -> ry_cylinder_layer_population d_g d_h ((d_g + d_h) / 2) L i = 1) /\
+  (0 < d_g -> 2 * ry_ring_radius d_g d_h L i = d_g -> ry_cylinder_layer_population d_g d_h ((d_g + d_h) / 2) L i = 2).
+Proof. exact (fun d_g d_h L i => conj (ry_cylinder_axial_molecule_counts_once_l d_g d_h L i) (ry_cylinder_two_molecules_at_contact_l d_g d_h L i)). Qed.
+Print Assumptions ry_cylinder_axial_molecule_counts_once.
+
+(* two layers, the inner one axial: the averaged potential has the weights n_1 and 1 *)
+Theorem ry_cylinder_two_layers_axial : forall k d_g d_h L e1 e2,
+  2 * ry_ring_radius d_g d_h L 2 < d_g ->
+  let n i := ry_cylinder_layer_population d_g d_h ((d_g + d_h) / 2) L i in
+  ry_cylinder_average k [n 1; n 2] [e1; e2] = k * (n 1 * e1 + e2) / (n 1 + 1).
+Proof. exact ry_cylinder_two_layers_axial_l. Qed.
+Print Assumptions ry_cylinder_two_layers_axial.
+
 (* satisfiability of the hypotheses *)
 Example hypotheses_satisfiable_parameters : physical_ads ex_ads /\ physical_mat (PROPERTIES_CARBON RNum) /\
   a_molecular_diameter _ ex_ads + m_molecular_diameter _ (PROPERTIES_CARBON RNum) < 1.
@@ -296,3 +332,6 @@ Example hypotheses_satisfiable_tail :
   hk_tail_def RNum ex_ads [0.4; 0.5; 0.7] [1e-6; 1e-5; 1e-4] [1; 2; 4] /\
   fst (fst (hk_tail RNum ex_ads [0.4; 0.5; 0.7] [1e-6; 1e-5; 1e-4] [1; 2; 4])) = [(0.4 + 0.5) / 2; (0.5 + 0.7) / 2].
 Proof. exact ex_tail. Qed.
+Example hypotheses_satisfiable_ry_axial :
+  2 * ry_ring_radius 0.3 0.34 0.7 2 < 0.3 /\ ry_cylinder_layer_population 0.3 0.34 ((0.3 + 0.34) / 2) 0.7 2 = 1.
+Proof. exact ry_cylinder_axial_example. Qed.
